@@ -198,6 +198,30 @@ def gen_cases(binname, args, seed, profile="release", timeout=3600):
     return cases
 
 
+def gen_cases_sharded(binname, args, seed, shards, profile="release", timeout=3600):
+    """Run `shards` copies of a harness generator in parallel with seeds seed, seed+7919, … and
+    concatenate their cases (each shard is still replayable from its own seed)."""
+    from concurrent.futures import ThreadPoolExecutor
+    with ThreadPoolExecutor(max_workers=shards) as ex:
+        futs = [ex.submit(gen_cases, binname, args, seed + 7919 * k, profile, timeout) for k in range(shards)]
+        out = []
+        for f in futs:
+            out += f.result()
+    return out
+
+
+def driver_batch_sharded(requests, shards=8):
+    """driver_batch over `shards` parallel driver processes (order preserved)."""
+    if len(requests) < 2 * shards:
+        return driver_batch(requests)
+    from concurrent.futures import ThreadPoolExecutor
+    n = (len(requests) + shards - 1) // shards
+    chunks = [requests[i:i + n] for i in range(0, len(requests), n)]
+    with ThreadPoolExecutor(max_workers=shards) as ex:
+        parts = list(ex.map(driver_batch, chunks))
+    return [r for p in parts for r in p]
+
+
 def correspond(ctx, stream, cases, nontrivial=None, spec_equal=None, model_equal=None):
     """Diff implementation vs model (correspondence) and implementation vs spec (property
     oracle) on `cases`.  Returns (model_disagreements, spec_disagreements) as lists of dicts."""
@@ -218,9 +242,9 @@ def correspond(ctx, stream, cases, nontrivial=None, spec_equal=None, model_equal
             osd.append({"stream": stream, "request": req, "impl": observed, "model": None,
                         "spec_request": None, "spec": expected})
     reqs = [c[0] for c in cases]
-    model = driver_batch(reqs)
+    model = driver_batch_sharded(reqs)
     spec_idx = [i for i, c in enumerate(cases) if c[2]]
-    spec = dict(zip(spec_idx, driver_batch([cases[i][2] for i in spec_idx])))
+    spec = dict(zip(spec_idx, driver_batch_sharded([cases[i][2] for i in spec_idx])))
     md, sd = [], osd
     for i, (req, impl, sreq) in enumerate(cases):
         st["cases"] += 1
